@@ -70,6 +70,37 @@ def make_backup(ctx, hid, rng, big=0):
     return w, g, b, os.path.join(w.root, g, b)
 
 
+def stalled_producer(ctx):
+    """gpg delivers the first part of the ciphertext, nothing for more than half a minute, then the rest: the provider must
+    still receive every byte, in the request bodies of a successful upload."""
+    w, g, b, bdir = make_backup(ctx, 590, random.Random(ctx.seed * 3 + 1), big=300000)
+    home = uc.make_gnupghome(w.base)
+    try:
+        d = os.path.join(w.base, 'fakebin')
+        os.makedirs(d, exist_ok=True)
+        with open(os.path.join(d, 'gpg'), 'w') as f:
+            f.write('#!/bin/bash\n/usr/bin/gpg "$@" > %s/out; head -c 150000 %s/out; sleep 31.5; tail -c +150001 %s/out\n' % (d, d, d))
+        os.chmod(os.path.join(d, 'gpg'), 0o755)
+        out = os.path.join(w.base, 'cipher.bin')
+        o = core.run_lines(core.harness_exe(ctx), [core.req('upbackup', {'backup_path': bdir, 'group': g, 'name': b, 'passphrase': 'stall pw', 'max': None,
+                                                                       'chunked': False, 'out': out})],
+                           env=dict(os.environ, GNUPGHOME=home, PATH=d + ':' + os.environ.get('PATH', '/usr/bin:/bin')), timeout=300)[0]
+        case = {'kind': 'stalled-producer'}
+        if not isinstance(o, dict) or o.get('result') != 'ok':
+            ctx.violation('property', 'the producer paused for 31.5 s in the middle of the stream and the upload did not complete: %s' % str(o)[:300], {'case': case})
+            return 1
+        blob = open(out, 'rb').read()
+        want = open(os.path.join(d, 'out'), 'rb').read()
+        if blob != want:
+            ctx.violation('property', 'the provider received %d bytes, gpg produced %d (a pause of the producer ended a request body early)' % (len(blob), len(want)), {'case': case})
+        for p in decode_object(home, blob, 'stall pw', b, bdir):
+            ctx.violation('property', p + ' [producer paused mid-stream]', {'case': case})
+        return 1
+    finally:
+        uc.kill_agent(home)
+        w.cleanup()
+
+
 def mock_runs(ctx):
     """(a)"""
     rng = ctx.rng
@@ -209,6 +240,8 @@ def e2e(ctx):
     # the archiver fails part-way through a backup's data file: whatever then exists under a final name must still be
     # the whole backup
     plans += [(prov, PASSPHRASES[1], 'readfault') for prov in (uc.PROVIDERS if ctx.tier == 'thorough' else ['yandex'])]
+    # the provider stores something else than what was sent (and reports its checksum honestly)
+    plans += [(prov, PASSPHRASES[2], 'corrupt') for prov in (uc.PROVIDERS if ctx.tier == 'thorough' else ['google'])]
     # gpg itself fails after having produced the beginning of the ciphertext
     plans += [(prov, PASSPHRASES[0], 'gpgfails') for prov in (uc.PROVIDERS if ctx.tier == 'thorough' else ['google'])]
     if ctx.tier == 'thorough':
@@ -251,18 +284,22 @@ def e2e(ctx):
                 g, b = e.backups[-1]
                 shim_env = {'FAULT': 'read@%s=EIO@%d' % (os.path.join(e.w.root, g, b, 'data.tar.zst'), 2), 'WATCH': os.path.join(e.w.root, g, b)}
                 args = ['--skip-verify']
-            o = e.upload(env=env, max_request_size=mx, timeout=900, shim_env=shim_env, args=args)
+            # (Google Drive: the first data request of a fresh cloud creates the group folder and carries no bytes)
+            rules = [{'fault': 'corrupt', 'match': {'provider': prov, 'endpoint': 'upload-data', 'nth': n}} for n in (1, 2)] if special == 'corrupt' else None
+            o = e.upload(rules=rules, env=env, max_request_size=mx, timeout=900, shim_env=shim_env, args=args)
             case = {'kind': 'e2e', 'provider': prov, 'passphrase': pp, 'special': special, 'max_request_size': mx}
             stats['uploads'] += 1
-            if special in ('readfault', 'gpgfails'):
-                stats['archiver_fault_runs' if special == 'readfault' else 'gpg_failure_runs'] = stats.get('archiver_fault_runs' if special == 'readfault' else 'gpg_failure_runs', 0) + 1
-                fired = bool(o['run'].errors()) if special == 'readfault' else os.path.exists(os.path.join(e.w.base, 'fakebin', 'count'))
+            if special in ('readfault', 'gpgfails', 'corrupt'):
+                key = {'readfault': 'archiver_fault_runs', 'gpgfails': 'gpg_failure_runs', 'corrupt': 'corrupted_storage_runs'}[special]
+                stats[key] = stats.get(key, 0) + 1
+                fired = os.path.exists(os.path.join(e.w.base, 'fakebin', 'count')) if special == 'gpgfails' else \
+                    any('corrupted by emulator' in (q.get('note') or '') for q in o['requests']) if special == 'corrupt' else bool(o['run'].errors())
                 nbad = len(ctx.violations)
                 for g, b in e.backups:
                     rel = '%s/%s.tar.gpg' % (g, b)
                     if rel in o['cloud']:
                         for p in decode_object(e.home, e.cloud_blob(rel), pp, b, os.path.join(e.w.root, g, b)):
-                            ctx.violation('property', p + ' [%s, after %s]' % (prov, 'a read error in the archiver' if special == 'readfault' else 'a failure of gpg'), {'case': case, 'errors': o['run'].errors()[:3]})
+                            ctx.violation('property', p + ' [%s, after %s]' % (prov, {'readfault': 'a read error in the archiver', 'gpgfails': 'a failure of gpg', 'corrupt': 'the provider stored a corrupted stream'}[special]), {'case': case, 'errors': o['run'].errors()[:3]})
                 if not fired and len(ctx.violations) == nbad:
                     ctx.violation('runtime', 'the injected fault (%s) did not fire' % special, {'case': case}, found_input=False)
                 continue
@@ -316,11 +353,13 @@ def check(ctx):
     store.ensure_shim()
     ctx.scratch_dir()
     a = mock_runs(ctx)
+    a['stalled_producer_runs'] = stalled_producer(ctx)
+    a['runs'] += a['stalled_producer_runs']
     b = e2e(ctx)
     ctx.coverage.update({
         'evaluations': a['runs'] + b['uploads'],
         'distinct_nontrivial': a['runs'] + b['objects'],
-        'rule': 'real upload_backup (real gpg) with a mock provider under request-size limits none / 1 / 7 / 4096 / exact divisors of the ciphertext size / +-1, md5 and chunked-sha256 hashers, '
+        'rule': 'real upload_backup (real gpg) with a mock provider under request-size limits none / 1 / 7 / 4096 / exact divisors of the ciphertext size / +-1, md5 and chunked-sha256 hashers, a producer pausing 31.5 s mid-stream, '
                 '6 passphrases (spaces, unicode, quotes, leading dash); vsb upload through Dropbox, Yandex Disk and Google Drive against the emulator, incl. a Dropbox limit dividing the ciphertext exactly'
                 + (' and a >150 MiB object with the real limit' if ctx.tier == 'thorough' else '') + '; every object decrypted with gpg and untarred independently',
         'samples': [], 'mock_provider': a, 'end_to_end': b,
